@@ -246,7 +246,7 @@ def match_replies(expected, unacked, got):
 
 def rib_state(wd):
     out = {}
-    names = {p.neighbor.session.peer_address.top(): p for p in wd.reactor._peers.values()}
+    names = {p.neighbor.session.peer_address.top(): p for p in wd.peers_map().values()}
     for n, d in NEIGHBORS.items():
         p = names.get(d['ip'])
         if p is None:
